@@ -68,3 +68,84 @@ Fixpoint last_word_escape_from (en : env) (s : state) (ws : list string) : bool 
 
 Definition last_word_escape (e : expr) (en : env) (ws : list string) : bool :=
   last_word_escape_from en (start e) ws.
+
+(** - [greedy_shadow]: the within-word matcher of the script is greedy and never backtracks: at a
+      point inside a word it consumes the first expected literal that begins what is left of the
+      word, and tries the commands and the undefined nonterminal expected at that point only
+      when no literal does.  A word that starts with an expected literal but goes on, and that
+      only the nonterminal (or a command) expected next to that literal could accept
+      ([--x=abcd] for [--x=(abc|<U>)]), is therefore rejected.  [gaccepts] is that greedy
+      reading on sets of residuals; the predicate says that some word before the cursor is
+      handed to a within-word expression that accepts it while the greedy reading does not. *)
+Definition first_lit (mv : list (wleaf * rx wleaf)) (rest : string) : option string :=
+  match filter (fun ak => match fst ak with
+                          | WLit t _ _ => nonempty t && String.prefix t rest
+                          | _ => false
+                          end) mv with
+  | (WLit t _ _, _) :: _ => Some t
+  | _ => None
+  end.
+
+Definition after_lit (t : string) (mv : list (wleaf * rx wleaf)) : list (rx wleaf) :=
+  flat_map (fun ak => match fst ak with
+                      | WLit t' _ _ => if String.eqb t' t then [snd ak] else []
+                      | _ => []
+                      end) mv.
+
+(** the first command item one of whose candidates begins what is left: (command, candidate) *)
+Definition first_cmd (en : env) (mv : list (wleaf * rx wleaf)) (rest : string) : option (string * string) :=
+  match flat_map (fun ak => match fst ak with
+                            | WCmd c _ => map (fun o => (c, o))
+                                              (filter (fun o => nonempty o && String.prefix o rest) (candidates en c))
+                            | _ => []
+                            end) mv with
+  | co :: _ => Some co
+  | [] => None
+  end.
+
+Definition after_cmd (c : string) (mv : list (wleaf * rx wleaf)) : list (rx wleaf) :=
+  flat_map (fun ak => match fst ak with
+                      | WCmd c' _ => if String.eqb c' c then [snd ak] else []
+                      | _ => []
+                      end) mv.
+
+Fixpoint gacc (en : env) (fuel : nat) (S : list (rx wleaf)) (rest : string) : bool :=
+  match rest with
+  | EmptyString => existsb nullable S
+  | _ =>
+      match fuel with
+      | O => false
+      | Datatypes.S f =>
+          let mv := flat_map lf S in
+          match first_lit mv rest with
+          | Some t => gacc en f (after_lit t mv) (sdrop (String.length t) rest)
+          | None =>
+              match first_cmd en mv rest with
+              | Some (c, o) => gacc en f (after_cmd c mv) (sdrop (String.length o) rest)
+              | None => existsb (fun ak => match fst ak with WAny => true | _ => false end) mv
+              end
+          end
+      end
+  end.
+
+Definition gaccepts (en : env) (x : rx wleaf) (w : string) : bool := gacc en (String.length w) [x] w.
+
+Definition shadow_step (en : env) (s : state) (w : string) : bool :=
+  let mv := moves s in
+  match lit_next w mv with
+  | _ :: _ => false
+  | [] =>
+      existsb (fun ak => match fst ak with
+                         | LSub x _ => waccepts en x w && negb (gaccepts en x w)
+                         | _ => false
+                         end) mv
+  end.
+
+Fixpoint greedy_shadow_from (en : env) (s : state) (ws : list string) : bool :=
+  match ws with
+  | [] => false
+  | w :: r => shadow_step en s w || greedy_shadow_from en (step en s w) r
+  end.
+
+Definition greedy_shadow (e : expr) (en : env) (ws : list string) : bool :=
+  greedy_shadow_from en (start e) ws.
